@@ -26,16 +26,16 @@ func floatParamsTLA(c *core.Ctx) string {
 	if c.Thorough() {
 		mants = []int{1, 3, 5, 7, 11, 15, 255, 1023, 4097, 65535, 1048575, 1<<30 - 1}
 		exps = []int{-1074, -1073, -1060, -1023, -1022, -1021, -100, -54, -53, -52, -33, -32, -31, -30, -29, -12, -3, -2, -1, 0, 1, 2, 3, 10, 29, 30, 31, 32, 33, 52, 53, 62, 63, 64, 100, 970, 1000, 1022, 1023}
-		mants2 = []int{1, 3, 5, 7, 1023, 16383}
-		exps2 = []int{-1074, -1073, -1022, -53, -2, -1, 0, 1, 2, 31, 32, 53, 64, 1000, 1010}
+		mants2 = []int{1, 3, 7, 1023, 16383}
+		exps2 = []int{-1074, -1073, -1022, -53, -2, -1, 0, 1, 31, 32, 53, 1000}
 	} else {
-		mants = []int{1, 3, 5, 7, 255, 4097, 1048575, 1<<30 - 1}
-		exps = []int{-1074, -1073, -1023, -1022, -54, -53, -32, -31, -30, -3, -2, -1, 0, 1, 2, 29, 30, 31, 32, 52, 53, 63, 970, 1023}
-		mants2 = []int{1, 3, 7, 1023}
-		exps2 = []int{-1074, -1022, -2, -1, 0, 1, 32, 53, 1000}
+		mants = []int{1, 3, 5, 255, 1048575, 1<<30 - 1}
+		exps = []int{-1074, -1073, -1024, -1023, -1022, -53, -32, -31, -30, -2, -1, 0, 1, 2, 29, 30, 31, 32, 52, 53, 970, 1023}
+		mants2 = []int{1, 3, 1023}
+		exps2 = []int{-1074, -1, 0, 1, 32, 1000}
 	}
 	// VERIF_SEED operands
-	for i := 0; i < c.Pick(1, 3); i++ {
+	for i := 0; i < c.Pick(1, 2); i++ {
 		mants = append(mants, rng.Intn(1<<29)*2+1)
 		exps = append(exps, rng.Intn(2040)-1060)
 		mants2 = append(mants2, rng.Intn(1<<13)*2+1)
@@ -57,6 +57,11 @@ func floatParamsTLA(c *core.Ctx) string {
 	b.WriteString(seq("FloatMants", mants))
 	b.WriteString(seq("FloatExps", exps))
 	b.WriteString(seq("FloatMants2", mants2))
+	if c.Thorough() {
+		b.WriteString(seq("FloatMants2Y", []int{1, 3, 16383, mants2[len(mants2)-1]}))
+	} else {
+		b.WriteString(seq("FloatMants2Y", []int{1, 3, mants2[len(mants2)-1]}))
+	}
 	b.WriteString(seq("FloatExps2", exps2))
 	b.WriteString(seq("FloatLdexp", ldexp))
 	b.WriteString("FloatFns == <<")
@@ -130,6 +135,10 @@ func (v fval) class() string {
 	top := v.e + bitLen(v.m) - 1
 	mag := ""
 	switch {
+	case top < -1024:
+		mag = "<2^-1024" // 1/x overflows
+	case top == -1024:
+		mag = "[2^-1024,2^-1023)"
 	case top < -1022:
 		mag = "subnormal"
 	case top < -1:
@@ -237,7 +246,22 @@ func o64(x uint64) {
 	}
 }
 
-func of(x float64) { o64(math.Float64bits(x)) }
+// NaN is printed as -1 (payload-insensitive comparison)
+func of(x float64) {
+	if x != x {
+		buf = append(buf, '-', '1')
+		return
+	}
+	o64(math.Float64bits(x))
+}
+
+func of32(x float32) {
+	if x != x {
+		buf = append(buf, '-', '1')
+		return
+	}
+	o32(math.Float32bits(x))
+}
 
 func ob(b bool) {
 	if b {
@@ -277,13 +301,13 @@ func floatCall(fn string) (elem string, body string) {
 	case "Ldexp":
 		return "[2]float64", "of(math.Ldexp(a[0], int(a[1])))"
 	case "Float64bits":
-		return "[1]float64", "o64(math.Float64bits(a[0]))"
+		return "[1]float64", "if a[0] != a[0] { of(a[0]) } else { o64(math.Float64bits(a[0])) }"
 	case "Float64frombits":
 		return "struct {\n\tb uint64\n\tx float64\n}", "v := math.Float64frombits(a.b); of(v); semi(); ob(v == a.x || (v != v && a.x != a.x))"
 	case "Float32bits":
-		return "[1]float32", "o32(math.Float32bits(a[0]))"
+		return "[1]float32", "if a[0] != a[0] { of32(a[0]) } else { o32(math.Float32bits(a[0])) }"
 	case "Float32frombits":
-		return "struct {\n\tb uint32\n\tx float32\n}", "v := math.Float32frombits(a.b); o32(math.Float32bits(v)); semi(); ob(v == a.x || (v != v && a.x != a.x)); semi(); of(float64(v))"
+		return "struct {\n\tb uint32\n\tx float32\n}", "v := math.Float32frombits(a.b); of32(v); semi(); ob(v == a.x || (v != v && a.x != a.x)); semi(); of(float64(v))"
 	case "Max", "Min", "Dim", "Mod", "Remainder", "Copysign":
 		return "[2]float64", fmt.Sprintf("of(math.%s(a[0], a[1]))", fn)
 	}
@@ -371,12 +395,11 @@ func canonFloatLine(l string) string {
 func runFloat(c *core.Ctx, pool *gjs.Pool) bool {
 	params := paramsModule(c)
 	cfg := "SPECIFICATION Spec\nINVARIANT Sane\nINVARIANT Emit\nCHECK_DEADLOCK FALSE\n"
-	r, err := tlcx.Run(c, tlcx.Opts{Module: "FloatGridScen", Cfg: cfg, Workers: 8, Timeout: 25 * time.Minute, HeapMB: 6144,
+	r, err := tlcx.Run(c, tlcx.Opts{Module: "FloatGridScen", Cfg: cfg, Workers: 2, Timeout: 25 * time.Minute, HeapMB: 2048,
 		Files: map[string]string{"C13Params.tla": params}})
 	if !tlcx.MustComplete(c, r, err, "FloatGridScen") {
 		return false
 	}
-	c.Phase("float_tlc")
 	files, _ := filepath.Glob(filepath.Join(r.Dir, "c13_float.*.ndjson"))
 	sort.Strings(files)
 	byFn := map[string][]*floatCase{}
@@ -441,49 +464,72 @@ func runFloat(c *core.Ctx, pool *gjs.Pool) bool {
 		}
 		sort.Slice(byFn[fn], func(i, j int) bool { return byFn[fn][i].raw < byFn[fn][j].raw })
 	}
-	prog := floatProgram(byFn, floatFns)
-	b := pool.RunBoth(c.Scratch, prog, gjs.Opts{}, 10*time.Minute, true, false)
-	if b.BuildErr != nil {
-		if be, ok := b.BuildErr.(*gjs.BuildError); ok && be.Panic {
-			c.Report(core.Case{Keys: []string{"compiler_panic"}, Summary: "compiler internal error on the math table program: " + be.Error(), Files: prog.ReplayFiles("prog")})
-		} else {
-			c.Infra(fmt.Errorf("gopherjs build of the math table program failed: %v", b.BuildErr))
-		}
-		return false
+	if corrupt("float") {
+		byFn["Floor"][0].want = "1,2,3,4"
 	}
-	if b.NativeErr != "" {
-		c.Infra(fmt.Errorf("reference toolchain rejected the math table program: %s", b.NativeErr))
-		return false
+	// programs of bounded size: chunks of at most 12000 table rows
+	type chunk struct {
+		byFn  map[string][]*floatCase
+		n     int
+		cases []*floatCase
 	}
-	if len(b.Native.Lines) != total || b.Native.End != "exit" {
-		c.Infra(fmt.Errorf("native math program printed %d lines, want %d (end=%s %s)", len(b.Native.Lines), total, b.Native.End, b.Native.Msg))
-		return false
-	}
-	c.Add("programs", 2)
-	col := newCollector()
-	if len(b.JS.Lines) != total || b.JS.End != "exit" {
-		col.fail(&failure{group: "float-js-abort", keys: []string{"math_program_aborted"},
-			summary: fmt.Sprintf("the math table program compiled by GopherJS printed %d lines, want %d; end=%s msg=%s", len(b.JS.Lines), total, b.JS.End, b.JS.Msg), files: prog.ReplayFiles("prog")})
-		col.flush(c)
-		return false
-	}
-	k := 0
-	traces := 0
+	var chunks []*chunk
+	cur := &chunk{byFn: map[string][]*floatCase{}}
 	for _, fn := range floatFns {
 		for _, cs := range byFn[fn] {
+			if cur.n >= 12000 {
+				chunks = append(chunks, cur)
+				cur = &chunk{byFn: map[string][]*floatCase{}}
+			}
+			cur.byFn[fn] = append(cur.byFn[fn], cs)
+			cur.cases = append(cur.cases, cs)
+			cur.n++
+		}
+	}
+	if cur.n > 0 {
+		chunks = append(chunks, cur)
+	}
+	col := newCollector()
+	traceCnt := make([]int, len(chunks))
+	c.ParMap(len(chunks), func(ci int) {
+		ch := chunks[ci]
+		prog := floatProgram(ch.byFn, floatFns)
+		b := pool.RunBoth(c.Scratch, prog, gjs.Opts{}, 10*time.Minute, true, false)
+		if b.BuildErr != nil {
+			if be, ok := b.BuildErr.(*gjs.BuildError); ok && be.Panic {
+				c.Report(core.Case{Keys: []string{"compiler_panic"}, Summary: "compiler internal error on the math table program: " + be.Error(), Files: prog.ReplayFiles("prog")})
+			} else {
+				c.Infra(fmt.Errorf("gopherjs build of the math table program failed: %v", b.BuildErr))
+			}
+			return
+		}
+		if b.NativeErr != "" {
+			c.Infra(fmt.Errorf("reference toolchain rejected the math table program: %s", b.NativeErr))
+			return
+		}
+		if len(b.Native.Lines) != ch.n || b.Native.End != "exit" {
+			c.Infra(fmt.Errorf("native math program printed %d lines, want %d (end=%s %s)", len(b.Native.Lines), ch.n, b.Native.End, b.Native.Msg))
+			return
+		}
+		c.Add("programs", 2)
+		if len(b.JS.Lines) != ch.n || b.JS.End != "exit" {
+			col.fail(&failure{group: "float-js-abort", keys: []string{"math_program_aborted"},
+				summary: fmt.Sprintf("the math table program compiled by GopherJS printed %d lines, want %d; end=%s msg=%s", len(b.JS.Lines), ch.n, b.JS.End, b.JS.Msg), files: prog.ReplayFiles("prog")})
+			return
+		}
+		for k, cs := range ch.cases {
 			js, nat := canonFloatLine(b.JS.Lines[k]), canonFloatLine(b.Native.Lines[k])
-			k++
 			c.Distinct("float/" + cs.raw)
 			want := cs.want
 			if nat != want {
 				col.discard(fmt.Sprintf("%s: specification %s, native %s", cs.call(), want, nat))
 				continue
 			}
-			traces++
+			traceCnt[ci]++
 			if js == want {
 				continue
 			}
-			mini := floatProgram(map[string][]*floatCase{fn: {cs}}, []string{fn})
+			mini := floatProgram(map[string][]*floatCase{cs.fn: {cs}}, []string{cs.fn})
 			files := mini.ReplayFiles("prog")
 			files["predicted.txt"] = want + "\n"
 			files["observed.txt"] = js + "\n"
@@ -492,6 +538,13 @@ func runFloat(c *core.Ctx, pool *gjs.Pool) bool {
 			col.fail(&failure{group: key, keys: []string{key}, files: files,
 				summary: fmt.Sprintf("%s = %s under GopherJS (bit pattern as 16-bit limbs, low first; -1 = NaN); specification and native Go: %s", cs.call(), js, want)})
 		}
+	})
+	if c.InfraErr != nil {
+		return false
+	}
+	traces := 0
+	for _, n := range traceCnt {
+		traces += n
 	}
 	if cs := byFn["Remainder"]; len(cs) > 0 {
 		m := cs[len(cs)/3]
